@@ -28,6 +28,17 @@ class Result:
     smt_size: int = 0
 
 
+@dataclass
+class TextObligation:
+    """An obligation whose formula is already SMT-LIB text (crosses process boundaries)."""
+    name: str
+    kind: str
+    lineno: int
+    note: str
+    path: int
+    smt2: str
+
+
 def to_smt2(pc: list, goal: Any, negate: bool = True) -> str:
     s = z3.Solver()
     for c in pc:
@@ -138,11 +149,34 @@ def _work(job):
     return idx, st, model, reason, backend, time.time() - t0
 
 
+_POOL = None
+
+
+def _pool(n: int):
+    """One worker pool per process, forked once (early, while the parent is still small): the jobs are SMT-LIB
+    texts, so the workers need nothing from the parent's later state."""
+    global _POOL
+    if _POOL is None:
+        import atexit
+        _POOL = mp.get_context('fork').Pool(n)
+        atexit.register(_close_pool)
+    return _POOL
+
+
+def _close_pool():
+    global _POOL
+    if _POOL is not None:
+        _POOL.terminate()
+        _POOL = None
+
+
 def discharge(obligations: list, timeout_ms: int = 10000, jobs: int = 0, use_cvc5: bool = True) -> list[Result]:
     """Check every obligation: assert -> pc => goal valid;  cover -> pc satisfiable."""
     jobs_list = []
     for i, ob in enumerate(obligations):
-        if ob.kind == 'cover':
+        if isinstance(ob, TextObligation):
+            smt2 = ob.smt2
+        elif ob.kind == 'cover':
             smt2 = to_smt2(ob.pc, None, negate=False)
         else:
             smt2 = to_smt2(ob.pc, ob.goal)
@@ -151,12 +185,10 @@ def discharge(obligations: list, timeout_ms: int = 10000, jobs: int = 0, use_cvc
                           use_cvc5 and ob.kind != 'cover'))
     results: list[Optional[Result]] = [None] * len(obligations)
     njobs = jobs or min(16, os.cpu_count() or 4)
-    if len(jobs_list) <= 2 or njobs == 1:
+    if len(jobs_list) <= 1 or njobs == 1:
         outs = [_work(j) for j in jobs_list]
     else:
-        ctx = mp.get_context('fork')
-        with ctx.Pool(min(njobs, len(jobs_list))) as pool:
-            outs = pool.map(_work, jobs_list, chunksize=1)
+        outs = _pool(njobs).map(_work, jobs_list, chunksize=1)
     for idx, st, model, reason, backend, dt in outs:
         ob = obligations[idx]
         if ob.kind == 'cover':
